@@ -355,7 +355,7 @@ impl Part for C12Part {
     }
     fn runs(&self, tier: Tier) -> u64 {
         match tier {
-            Tier::Quick => 40_000,
+            Tier::Quick => 24_000,
             Tier::Thorough => 2_000_000,
         }
     }
